@@ -39,7 +39,7 @@ const CLASSES: [&str; 12] = ["alpha", "digit", "alnum", "upper", "lower", "space
 const LITS: [char; 24] = ['a', 'b', 'B', 'z', '0', '.', '*', '?', '[', ']', '!', '-', '^', '$', '\\', '/', ' ', '\n', '+', '{', '(', '|', 'é', '_'];
 
 /// a random pattern from the grammar of the property together with a subject it should match
-fn gen_pattern(rng: &mut Rng) -> (String, String) {
+pub fn gen_pattern(rng: &mut Rng) -> (String, String) {
     let mut pat = String::new();
     let mut subj = String::new();
     let n = rng.range(1, 7);
